@@ -307,6 +307,18 @@ func runC19(c *core.Ctx) core.Meta {
 		},
 		OnlyFuncs: func(name string) bool { return strings.HasPrefix(name, "Driver.send") },
 	})
+	// ---------------- R19.7 acknowledgement counters belong to one handshake at a time (c19ack.go) ----------------
+	checkAckCounterOwnership(c, pc)
+
+	// the driver's receive side: every handler reached after a message was retrieved from
+	// the GPU port reports progress (R19.1.rx.progress-after-consume); a handler that
+	// returns false after consuming lets the driver sleep with the next acknowledgement
+	// unread, because a port only wakes its component when its buffer was empty
+	RunProto(c, &ProtoCfg{
+		RuleBase: "R19.1.rx", Pkg: driverPkg, FloorSends: 0,
+		Effects:   []Effect{RetrieveEffect},
+		OnlyFuncs: func(name string) bool { return name == "Driver.processReturnReq" },
+	})
 	st4 := c.Rule("R19.4", "the drain → shootdown → migrate → restart stages are each entered only where the previous stage's acknowledgement counter was found 0; a new migration request is accepted only when none is being handled; one page migrates at a time", 6)
 	type stage struct {
 		what    string
